@@ -851,6 +851,38 @@ func fillTo(s string, w int, right bool) string {
 	return pad + s
 }
 
+// decEmpty: the decorator's text is empty in a row showing the given state (an
+// empty name, or a wrapper whose on-complete / on-abort message is empty).
+func decEmpty(d DecSpec, g Group) bool {
+	switch d.Wrap {
+	case "oncompleteE":
+		if g.C {
+			return true
+		}
+	case "onabortE":
+		if g.A {
+			return true
+		}
+	case "oncomplete":
+		if g.C {
+			return false
+		}
+	case "onabort":
+		if g.A {
+			return false
+		}
+	case "both":
+		if g.C || g.A {
+			return false
+		}
+	case "deep":
+		if g.C || g.A {
+			return false
+		}
+	}
+	return d.Kind == "emptyname"
+}
+
 func needWidth(tokW int, d DecSpec) int {
 	if d.W > tokW {
 		return d.W
@@ -862,6 +894,13 @@ func needWidth(tokW int, d DecSpec) int {
 }
 
 func (a *analysis) oracleC12() verdict {
+	// a certified deadlock with a decorator parked in the width handshake: the
+	// column never got its common width, the frame it belongs to never appears
+	if a.commonInconclusive() == nil && a.rr.stuckKind == "deadlock" && strings.Contains(a.rr.stuckSig, "decor.WC.Format") {
+		v := violated("sync-deadlock", "certified deadlock inside width synchronisation: a synchronised decorator waits in WC.Format for a column width that never arrives (%s)", a.rr.stuckSig)
+		v.Witness = a.rr.stuckDump
+		return v
+	}
 	if v := a.framesUsable(); v != nil {
 		return *v
 	}
@@ -887,8 +926,18 @@ func (a *analysis) oracleC12() verdict {
 			}
 			spec := sc.Bars[g.ID]
 			toks := bracketTokens(g.Main)
-			ri := rowInfo{g: g, toks: toks, pre: spec.Pre, app: spec.App, filler: spec.Filler == "bar"}
-			want := 1 + len(spec.Pre) + len(spec.App)
+			ri := rowInfo{g: g, pre: spec.Pre, app: spec.App, filler: spec.Filler == "bar"}
+			want := 1
+			for _, d := range spec.Pre {
+				if !decEmpty(d, g) {
+					want++
+				}
+			}
+			for _, d := range spec.App {
+				if !decEmpty(d, g) {
+					want++
+				}
+			}
 			if ri.filler {
 				want++
 			}
@@ -904,6 +953,30 @@ func (a *analysis) oracleC12() verdict {
 			if len(toks) != want {
 				return a.fv("row-tokens", "frame %d bar %d: row %q has %d fields, expected %d (marker, %d+%d decorators, filler)", fi, g.ID, g.Main, len(toks), want, len(spec.Pre), len(spec.App))
 			}
+			// one entry per decorator slot; a decorator whose text is empty has the empty token
+			next := 0
+			take := func() string { next++; return toks[next-1] }
+			ri.toks = append(ri.toks, take())
+			for _, d := range spec.Pre {
+				if decEmpty(d, g) {
+					ri.toks = append(ri.toks, "")
+				} else {
+					ri.toks = append(ri.toks, take())
+				}
+			}
+			if ri.filler {
+				ri.toks = append(ri.toks, take())
+			}
+			for _, d := range spec.App {
+				if decEmpty(d, g) {
+					ri.toks = append(ri.toks, "")
+				} else {
+					ri.toks = append(ri.toks, take())
+				}
+			}
+			for next < len(toks) {
+				ri.toks = append(ri.toks, take())
+			}
 			rows = append(rows, ri)
 		}
 		if !ok {
@@ -914,7 +987,7 @@ func (a *analysis) oracleC12() verdict {
 		for _, r := range rows {
 			ord := 0
 			for i, d := range r.pre {
-				if d.Kind == "sync" {
+				if d.synced() {
 					k := fmt.Sprintf("p%d", ord)
 					if w := needWidth(vterm.StringWidth(r.toks[1+i]), d); w > colMax[k] {
 						colMax[k] = w
@@ -928,7 +1001,7 @@ func (a *analysis) oracleC12() verdict {
 				off++
 			}
 			for i, d := range r.app {
-				if d.Kind == "sync" {
+				if d.synced() {
 					k := fmt.Sprintf("a%d", ord)
 					if w := needWidth(vterm.StringWidth(r.toks[off+i]), d); w > colMax[k] {
 						colMax[k] = w
@@ -944,7 +1017,7 @@ func (a *analysis) oracleC12() verdict {
 			for i, d := range r.pre {
 				tok := r.toks[1+i]
 				w := needWidth(vterm.StringWidth(tok), d)
-				if d.Kind == "sync" {
+				if d.synced() {
 					w = colMax[fmt.Sprintf("p%d", ord)]
 					ord++
 					synced++
@@ -960,7 +1033,7 @@ func (a *analysis) oracleC12() verdict {
 			for i, d := range r.app {
 				tok := r.toks[off+i]
 				w := needWidth(vterm.StringWidth(tok), d)
-				if d.Kind == "sync" {
+				if d.synced() {
 					w = colMax[fmt.Sprintf("a%d", ord)]
 					ord++
 					synced++
